@@ -932,6 +932,9 @@ pub(crate) fn string_methods(builder: &mut MethodsBuilder) {
         #[starlark(require = pos, default = NoneOr::None)] maxsplit: NoneOr<i32>,
         heap: Heap<'v>,
     ) -> anyhow::Result<ValueOfUnchecked<'v, UnpackList<String>>> {
+        if let NoneOr::Other("") = sep {
+            return Err(anyhow::anyhow!("rsplit: empty separator"));
+        }
         let maxsplit = match maxsplit.into_option() {
             None => None,
             Some(v) => {
@@ -1031,6 +1034,9 @@ pub(crate) fn string_methods(builder: &mut MethodsBuilder) {
         #[starlark(require = pos, default = NoneOr::None)] maxsplit: NoneOr<i32>,
         heap: Heap<'v>,
     ) -> anyhow::Result<ValueOfUnchecked<'v, UnpackList<String>>> {
+        if let NoneOr::Other("") = sep {
+            return Err(anyhow::anyhow!("split: empty separator"));
+        }
         let maxsplit = match maxsplit.into_option() {
             None => None,
             Some(v) => {
